@@ -326,6 +326,37 @@ def unit_prefixes(a):
     return stats
 
 
+LONG_PREFIXES = {
+    "feature": ["FeatureLine"],
+    "background-step": ["FeatureLine", "BackgroundLine", "StepLine"],
+    "scenario-step": ["FeatureLine", "ScenarioLine", "StepLine"],
+    "examples-table": ["FeatureLine", "ScenarioLine", "StepLine", "ExamplesLine", "TableRow"],
+    "rule-scenario": ["FeatureLine", "RuleLine", "ScenarioLine", "StepLine", "DocStringSeparator", "Other", "DocStringSeparator"],
+    "rule-examples": ["FeatureLine", "RuleLine", "ScenarioLine", "ExamplesLine"],
+}
+
+
+def unit_long_runs(a):
+    """look-ahead over long runs of tag / comment / blank lines (a bound on the number of buffered lines would show here)"""
+    stats = Stats()
+
+    def gen():
+        pats = {"tags": lambda i: "TagLine", "comments": lambda i: "Comment", "blanks": lambda i: "Empty",
+                "mixed": lambda i: ("TagLine", "Comment", "Empty")[i % 3], "mixed2": lambda i: ("Empty", "Empty", "TagLine", "Comment")[i % 4]}
+        k = 0
+        for name, pre in LONG_PREFIXES.items():
+            for n in a["lengths"]:
+                for pn, f in pats.items():
+                    k += 1
+                    if k % a["nshards"] != a["shard"]:
+                        continue
+                    run = [f(i) for i in range(n)]
+                    for term in (["ScenarioLine"], ["ExamplesLine"], ["RuleLine"], ["Other"], [], ["ScenarioLine", "StepLine", "TagLine", "Empty", "ExamplesLine"]):
+                        yield {"sub": "seq", "kinds": pre + ["TagLine"] + run + term, "flavour": "pure"}
+    sweep(stats, gen(), check_seq)
+    return stats
+
+
 @st.composite
 def st_walk(draw):
     """random walk on the grammar automaton with occasional deviations"""
@@ -378,6 +409,8 @@ def run(ctx):
     L = 4 if q else 6
     ns = 16
     ctx.units("prefix-sequences", unit_prefixes, [{"L": L, "shard": i, "nshards": ns} for i in range(ns)], procs=ns)
+    ctx.units("long-lookahead-runs", unit_long_runs, [{"lengths": list(range(0, 40)) + [48, 64, 100, 128, 129, 256, 257] + ([] if q else [500, 1023, 1024, 1025, 2000, 4096, 4097]),
+                                                       "shard": i, "nshards": 16} for i in range(16)], procs=16)
     ctx.units("random-walks", unit_walks, [{"n": 400 if q else 6000, "seed": ctx.seed, "shard": i} for i in range(4 if q else 16)], procs=16)
     try:
         from . import c02_text
